@@ -30,7 +30,7 @@ func sub(m map[string]string, ss ...string) []string {
 }
 
 func propC09(c *Ctx) {
-	c.Explanation = "Decides, for all inputs and schedules, the structural mechanisms behind 'exactly the addressed socket or nobody': (D1) findEndpointLocked is loop-free and its complete path table is the four-step most-specific match of the property - keys (LocalPort,LocalAddress,RemotePort,RemoteAddress) = full id, id without local address, id without remote part, local port only, in that order, returning at the first hit; (D2) deliverPacket hands the packet to exactly the endpoint found and reports true only then; NIC.DeliverTransportPacket builds the id from the parsed ports and the route addresses and tries NIC demuxer, stack demuxer, default handler, unknown-destination handler each only when all previous ones declined; registerEndpoint rolls back exactly the protocols it registered; singleRegisterEndpoint rejects duplicates and inserts in the same critical section; (D3) DeliverNetworkPacket passes a packet to a network endpoint only when getRef found the destination address on this NIC, and getRef creates a temporary endpoint only under promiscuous mode or an owning subnet; forwarding only when enabled; (D4) endpoints/NIC/Stack tables are accessed only under their mutexes (lockset); (D5) Subnet.Contains and Route.Match return true only after every byte matched under the mask. D7 also pairs every tryIncRef of the module with a release, hand-over or return on every path on which it succeeded. (D8) the isRegistered flag follows registration and inline unregistration at once (shared with C03/H9); D7 also tables the reference counter itself (decRef removes at zero, tryIncRef never revives zero). (D9) the echo request's route reference is released on every way out (shared with C13/I1,I2); D6 also decides udp Connect's local port. (D10) a new address entry holds exactly the insertion reference and is published under its endpoint id, temporary entries do not keep it, a cloned route takes one reference; (D11) what udp Connect records and Close gives up; (D12) TCP teardown gives up the route reference once and drains the accept queue, an active open registers under the identity of the route found; (D13) registration fails with ErrPortInUse exactly when the id is taken and stops at the first failing network. (D14) package stack narrows no port, NIC id or protocol number. NOT decided: that the maps contain what a history of register/close calls implies; reference counting."
+	c.Explanation = "Decides, for all inputs and schedules, the structural mechanisms behind 'exactly the addressed socket or nobody': (D1) findEndpointLocked is loop-free and its complete path table is the four-step most-specific match of the property - keys (LocalPort,LocalAddress,RemotePort,RemoteAddress) = full id, id without local address, id without remote part, local port only, in that order, returning at the first hit; (D2) deliverPacket hands the packet to exactly the endpoint found and reports true only then; NIC.DeliverTransportPacket builds the id from the parsed ports and the route addresses and tries NIC demuxer, stack demuxer, default handler, unknown-destination handler each only when all previous ones declined; registerEndpoint rolls back exactly the protocols it registered; singleRegisterEndpoint rejects duplicates and inserts in the same critical section; (D3) DeliverNetworkPacket passes a packet to a network endpoint only when getRef found the destination address on this NIC, and getRef creates a temporary endpoint only under promiscuous mode or an owning subnet; forwarding only when enabled; (D4) endpoints/NIC/Stack tables are accessed only under their mutexes (lockset); (D5) Subnet.Contains and Route.Match return true only after every byte matched under the mask. D7 also pairs every tryIncRef of the module with a release, hand-over or return on every path on which it succeeded. (D8) the isRegistered flag follows registration and inline unregistration at once (shared with C03/H9); D7 also tables the reference counter itself (decRef removes at zero, tryIncRef never revives zero). (D9) the echo request's route reference is released on every way out (shared with C13/I1,I2); D6 also decides udp Connect's local port. (D10) a new address entry holds exactly the insertion reference and is published under its endpoint id, temporary entries do not keep it, a cloned route takes one reference; (D11) what udp Connect records and Close gives up; (D12) TCP teardown gives up the route reference once and drains the accept queue, an active open registers under the identity of the route found; (D13) registration fails with ErrPortInUse exactly when the id is taken and stops at the first failing network. (D14) package stack narrows no port, NIC id or protocol number. (D15) the demuxer holds one freshly allocated endpoint table per (network, transport) pair - the table is created inside the inner loop - and every lookup selects the table by both protocol numbers: sockets of different transport protocols never share a table. (D16) RemoveSubnet drops every entry equal to the subnet (AddSubnet does not de-duplicate), so the interface stops owning it. NOT decided: that the maps contain what a history of register/close calls implies; reference counting."
 	c.Assumptions = []string{"map lookups with equal keys observed inside one critical section return the same value"}
 
 	// D4 lockset
@@ -45,6 +45,43 @@ func propC09(c *Ctx) {
 	tcpConnectIdentityRule(c, d12)
 	demuxRegisterReturnsRule(c, c.Rule("D13", "K7 closed return tables", "registration fails with ErrPortInUse exactly when the id is taken, and stops at the first failing network", 5))
 	c.NoNewNarrowing(c.Rule("D14", "K8 narrowing (closed world, reviewed table)", "package stack narrows no port, NIC id or protocol number", 2), []string{"/net-protocol/stack"}, nil)
+	d16 := c.Rule("D16", "K7 closed site table (exact guards)", "RemoveSubnet drops EVERY entry equal to the subnet (AddSubnet does not de-duplicate): after it returns the interface owns no copy of it", 2)
+	if fn := c.Fn(d16, "(*stack.NIC).RemoveSubnet"); fn != nil {
+		idx := "(1 + phi{-1 | loop})"
+		kept := "phi{$0.subnets[:0] | builtin:append(loop, [$0.subnets[" + idx + "]]) | loop}"
+		c.CheckSites(d16, fn, []SiteSpec{
+			{Kind: "call", Target: "builtin:append", Args: []string{kept, "[$0.subnets[" + idx + "]]"}, Guards: []string{"!($0.subnets[" + idx + "] == $1)", "(" + idx + " < builtin:len($0.subnets))"}, Exact: true, N: 1, Why: "an entry is kept exactly when it differs from the subnet being removed; nothing else ends or shortens the walk"},
+			{Kind: "store", Target: "stack.NIC.subnets", Args: []string{"$0", kept}, Guards: []string{"!(" + idx + " < builtin:len($0.subnets))"}, Exact: true, N: 1, Why: "the list becomes the kept entries, once, after ALL entries were looked at"},
+		})
+	}
+	d15 := c.Rule("D15", "K7 closed site table (exact guards)", "the demuxer holds one endpoint table per (network protocol, transport protocol) pair, each freshly allocated: sockets of different transport protocols never share a table", 5)
+	if fn := c.Fn(d15, "stack.newTransportDemuxer"); fn != nil {
+		both := []string{"next(range($0.networkProtocols))#0", "next(range($0.transportProtocols))#0"}
+		c.CheckSites(d15, fn, []SiteSpec{
+			{Kind: "store", Target: "stack.transportDemuxer.protocol", Args: []string{"new(stack.transportDemuxer)", "make(map[stack.protocolIDs]*stack.transportEndpoints)"}, Guards: []string{}, Exact: true, N: 1, Why: "a fresh table of tables"},
+			{Kind: "store", Target: "stack.transportEndpoints.endpoints", Args: []string{"new(stack.transportEndpoints)", "make(map[stack.TransportEndpointID]stack.TransportEndpoint)"}, Guards: both, Exact: true, N: 1, Why: "the endpoint table is created INSIDE the inner loop: one per (network, transport) pair, with its own map"},
+			{Kind: "mapupdate", Target: "", Args: []string{"new(stack.transportDemuxer).protocol@1", "stack.protocolIDs{network: next(range($0.networkProtocols))#1, transport: next(range($0.transportProtocols))#1}", "&new(stack.transportEndpoints)"}, Guards: both, Exact: true, N: 1, Why: "keyed by the pair; the value is the table just created"},
+			{Kind: "return", Args: []string{"&new(stack.transportDemuxer)"}, N: 1, Why: "the demuxer built here"},
+		})
+	}
+	for _, name := range []string{"(*stack.transportDemuxer).deliverPacket", "(*stack.transportDemuxer).deliverControlPacket", "(*stack.transportDemuxer).singleRegisterEndpoint", "(*stack.transportDemuxer).unregisterEndpoint"} {
+		fn := c.Fn(d15, name)
+		if fn == nil {
+			continue
+		}
+		// every lookup in d.protocol is keyed by the (network, transport) pair of the call
+		n := 0
+		Instrs(fn, func(in ssa.Instruction) {
+			lk, ok := in.(*ssa.Lookup)
+			if !ok || !strings.HasSuffix(stripVer(Term(lk.X)), ".protocol") {
+				return
+			}
+			n++
+			k := Term(lk.Index)
+			c.Check(strings.HasPrefix(k, "stack.protocolIDs{network: ") && strings.Contains(k, ", transport: $"), d15, name+"/table-lookup:"+k, c.P.Pos(lk.Pos()), "endpoint table selected by the (network, transport) pair handed in", "the endpoint table is not selected by both protocol numbers")
+		})
+		c.Check(n >= 1, d15, name+"/has-table-lookup", c.P.Pos(fn.Pos()), "selects a table", "no table lookup found")
+	}
 	d1 := c.Rule("D1", "K9 path table (flow-sensitive struct values)", "four-step most-specific match", 4)
 	if fn := c.Fn(d1, "(*stack.transportDemuxer).findEndpointLocked"); fn != nil {
 		ps, es := WalkPaths(fn, 64)
@@ -184,16 +221,7 @@ func propC09(c *Ctx) {
 		{Fn: "(*udp.endpoint).registerWithStack", Target: "(*stack.Stack).RegisterTransportEndpoint", Args: []string{"$0.stack", "$1", "$2", "17", "phi{$3 | partial}", "$0"}, Why: "register under the caller's scope; the id possibly with the reserved ephemeral port"},
 		{Fn: "udp.NewConnectedEndpoint", Target: "(*stack.Stack).RegisterTransportEndpoint", Args: []string{"$0", "(*stack.Route).NICID($1)", "[$1.NetProto]", "17", "$2", "udp.newEndpoint($0, $1.NetProto, $3)"}, Why: "forwarder-created endpoint registers on the route's NIC with the given id"},
 	})
-	if fn := c.Fn(d6, "(*udp.endpoint).Connect"); fn != nil {
-		nic := "phi{$0.bindNICID | $1.NIC}"
-		protos := "phi{[(*udp.endpoint).checkV4Mapped($0, &new(tcpip.FullAddress), false)#0] | [2048, 34525]}"
-		c.CheckSitesPresent(d6, fn, []SiteSpec{
-			{Kind: "call", Target: "(*udp.endpoint).registerWithStack", Args: []string{"$0", nic, protos, "*"}, N: 1, Why: "the new registration is made under (NIC, protocols)"},
-			{Kind: "store", Target: "udp.endpoint.regNICID", Args: []string{"$0", nic}, N: 1, Why: "... and exactly that NIC is recorded for the later unregistration"},
-			{Kind: "store", Target: "udp.endpoint.effectiveNetProtos", Args: []string{"$0", protos}, N: 1, Why: "... and exactly those protocols"},
-		})
-		c.Ordered(d6, fn, []string{"register new", "unregister old", "record new scope"}, []func(Site) bool{isCall("(*udp.endpoint).registerWithStack"), isCall("(*stack.Stack).UnregisterTransportEndpoint"), isStore("udp.endpoint.regNICID")})
-	}
+	udpReconnectRule(c, d6)
 
 	udpConnectPortRule(c, d6)
 
@@ -364,5 +392,22 @@ func demuxRegistrationRule(c *Ctx, d2 string) {
 		for _, d := range c.Calls(fn, Is("builtin:delete"), false) {
 			c.ArgIs(d2, "delete-key", d, 1, "$3")
 		}
+	}
+}
+
+// udpReconnectRule: udp Connect registers the new association, removes the old
+// registration under the scope recorded for it, and only then records the new
+// scope. Shared by C09 (D6) and C11 (a connected socket hears only its peer).
+func udpReconnectRule(c *Ctx, rule string) {
+	if fn := c.Fn(rule, "(*udp.endpoint).Connect"); fn != nil {
+		nic := "phi{$0.bindNICID | $1.NIC}"
+		protos := "phi{[(*udp.endpoint).checkV4Mapped($0, &new(tcpip.FullAddress), false)#0] | [2048, 34525]}"
+		c.CheckSitesPresent(rule, fn, []SiteSpec{
+			{Kind: "call", Target: "(*udp.endpoint).registerWithStack", Args: []string{"$0", nic, protos, "*"}, N: 1, Why: "the new registration is made under (NIC, protocols)"},
+			{Kind: "store", Target: "udp.endpoint.regNICID", Args: []string{"$0", nic}, N: 1, Why: "... and exactly that NIC is recorded for the later unregistration"},
+			{Kind: "store", Target: "udp.endpoint.effectiveNetProtos", Args: []string{"$0", protos}, N: 1, Why: "... and exactly those protocols"},
+			{Kind: "call", Target: "(*stack.Stack).UnregisterTransportEndpoint", Args: []string{"$0.stack", "$0.regNICID", "$0.effectiveNetProtos", "17", "$0.id"}, N: 1, Why: "the OLD registration is removed under the scope and id recorded when it was made (before any of them is overwritten): otherwise the bound registration survives for some network protocol and a connected socket keeps receiving from strangers"},
+		})
+		c.Ordered(rule, fn, []string{"register new", "unregister old", "record new scope"}, []func(Site) bool{isCall("(*udp.endpoint).registerWithStack"), isCall("(*stack.Stack).UnregisterTransportEndpoint"), isStore("udp.endpoint.regNICID")})
 	}
 }
